@@ -19,7 +19,8 @@ RULE = (
     "read-only probes incl. dataset slicing, merge_files) on IH5Record and IH5MFRecord; after EVERY op the sha256 "
     "and size of every committed *.ih5 and *.ih5mf.json is compared with the digest taken at its commit and the "
     "directory listing is compared with the allowed set; each commit's file set is copied out later and must open "
-    "'r' showing the tree recorded at that commit. Non-trivial = >=2 commits followed by >=2 different kinds of "
+    "'r' showing the tree recorded at that commit. Scenario shard: relative path + chdir (commit/discard/close), stub "
+    "created next to a kept manifest, a second record object (r / r+) while a patch is open. Non-trivial = >=2 commits followed by >=2 different kinds of "
     "later record-level ops; distinct by op-kind sequence"
 )
 ASSUMPTIONS = ["mode 'w' excluded (explicitly truncating)", "atime/mtime not compared",
